@@ -68,6 +68,8 @@ def stmt_inputs(st_: dict) -> List[str]:
         return [st_["q"], st_["k"], st_["v"]]
     if op == "add":
         return [st_["a"]] + ([st_["b"]] if st_["b"] != "scalar" else [])
+    if op == "mul":
+        return [st_["a"], st_["b"]]
     if op in ("embedding", "param"):
         return []
     raise KeyError(op)
@@ -252,6 +254,8 @@ def _expr(s: dict, prog: dict) -> List[str]:
         if sp == "iadd":
             return [f"{o} = {a}", f"{o} += {b}"]
         raise KeyError(sp)
+    if op == "mul":
+        return [f"{o} = {s['a']} * {s['b']}" if s["spell"] == "star" else f"{o} = torch.mul({s['a']}, {s['b']})"]
     if op == "shape":
         x = s["x"]
         k = s["kind"]
@@ -694,6 +698,8 @@ def evaluate(prog: dict, P: Dict[str, torch.Tensor], inputs: Dict[str, torch.Ten
             a = env[s["a"]]
             b = s.get("c", 1.0) if s["b"] == "scalar" else env[s["b"]]
             v = mode.add(s, a, b)
+        elif op == "mul":
+            v = env[s["a"]] * env[s["b"]]
         elif op == "shape":
             x = env[s["x"]]
             k = s["kind"]
@@ -827,6 +833,14 @@ class _Builder:
             return self.emit(op="conv1d", x=x, i=self.idx())
         if k == "intop":
             return self.emit(op="intop", kind=d(st.sampled_from(["argmax_mask", "gt_where"])), x=x)
+        if k == "gate":
+            # two paths computed from the same tensor, multiplied (SwiGLU-like gating): a branch with more than one way back to x
+            sub = [kk for kk in kinds if kk not in ("gate", "shape", "scalar_add", "intop")] or ["ew"]
+            a = self.unary(x, sub)
+            b = self.unary(x, sub) if d(st.booleans()) else x
+            if d(st.booleans()):
+                a, b = b, a
+            return self.emit(op="mul", a=a, b=b, spell=d(st.sampled_from(["star", "torch.mul"])))
         if k == "scalar_add":
             return self.emit(op="add", a=x, b="scalar", c=d(st.sampled_from([1.0, -0.5, 2])), spell=d(st.sampled_from(["plus", "torch.add"])))
         raise KeyError(k)
@@ -907,7 +921,7 @@ ALLOW_UNIT = dict(
     plain_add=["fork", "param", "x2"],
     extra=[],
 )
-KINDS_UNIT = ["linear", "linear", "seq", "mlp2", "ew", "ew", "ew", "sdpa", "shape", "matmul", "conv1d", "scalar_add"]
+KINDS_UNIT = ["linear", "linear", "seq", "mlp2", "ew", "ew", "ew", "sdpa", "shape", "matmul", "conv1d", "scalar_add", "gate"]
 
 
 @st.composite
@@ -963,7 +977,7 @@ ALLOW_QUANT = dict(
     plain_add=["fork", "param", "x2"],
     extra=["usdpa"],
 )
-KINDS_QUANT = ["linear", "linear", "linear", "seq", "mlp2", "umlp2", "ulinear", "sdpa", "sdpa", "ew", "ew", "shape"]
+KINDS_QUANT = ["linear", "linear", "linear", "seq", "mlp2", "umlp2", "ulinear", "sdpa", "sdpa", "ew", "ew", "shape", "gate"]
 
 
 @st.composite
@@ -1045,7 +1059,7 @@ ALLOW_TRACK = dict(
     plain_add=["fork", "fork", "param", "x2"],
     extra=[],
 )
-KINDS_TRACK = ["linear", "seq", "mlp2", "ew", "ew", "shape", "shape", "shape", "sdpa", "matmul", "intop", "scalar_add"]
+KINDS_TRACK = ["linear", "seq", "mlp2", "ew", "ew", "shape", "shape", "shape", "sdpa", "matmul", "intop", "scalar_add", "gate"]
 
 
 @st.composite
@@ -1243,6 +1257,8 @@ def to_fx(prog: dict):
             a = env[s["a"]]
             b = s.get("c", 1.0) if s["b"] == "scalar" else env[s["b"]]
             env[o] = cf(torch.add if s["spell"] == "torch.add" else operator.add, (a, b))
+        elif op == "mul":
+            env[o] = cf(torch.mul if s["spell"] == "torch.mul" else operator.mul, (env[s["a"]], env[s["b"]]))
         elif op == "param":
             env[o] = ph[f"p{i}"]
         elif op == "shape":
